@@ -2,6 +2,7 @@ package props
 
 import (
 	"fmt"
+	"net"
 	"strings"
 
 	"github.com/tigerwill90/fox"
@@ -20,6 +21,14 @@ func init() {
 		Real: []string{"fox.New option processing, applyMiddleware/applyRouteMiddleware, Router.NewRoute, route chains, ServeHTTP dispatch"},
 		Stub: commonStub,
 	})
+}
+
+// countingResolver counts how often the client IP is asked for.
+type countingResolver struct{ n *int }
+
+func (r countingResolver) ClientIP(fox.Context) (*net.IPAddr, error) {
+	*r.n++
+	return &net.IPAddr{IP: net.IPv4(192, 0, 2, 9)}, nil
 }
 
 type gmw struct {
@@ -86,8 +95,12 @@ func runC13(src sim.Source, o Opts) *Result {
 		}
 		glob = append(glob, g)
 	}
+	// DefaultOptions registers a Logger for every handler kind (and a Recovery for routes): they are not traced like the
+	// harness' middleware, but the Logger asks the client-IP resolver once per request it wraps - a counting resolver
+	// shows whether it ran
+	loggerRuns := 0
 	if useDefault {
-		opts = append(opts, fox.DefaultOptions())
+		opts = append(opts, fox.DefaultOptions(), fox.WithClientIPResolver(countingResolver{&loggerRuns}))
 		res.inc("config_default_options")
 	}
 	// trailing-slash redirection: router-wide, or switched on by the routes themselves (global setting off or "ignore")
@@ -243,7 +256,12 @@ func runC13(src sim.Source, o Opts) *Result {
 	// an extra route with redirect enabled for the redirect handler kind (global redirect is on)
 	check := func(what string, p world.Probe, wantKind model.Kind, routeMW []int) bool {
 		res.Checks++
+		before := loggerRuns
 		obs := w.Serve(p, "", "", nil)
+		if useDefault && loggerRuns-before != 1 {
+			res.fail("C13/trace", "%s: %s %s (%s handler): the Logger registered by DefaultOptions for all handler kinds ran %d times, expected once", what, p.Method, p.Path, wantKind, loggerRuns-before)
+			return false
+		}
 		if wantKind == model.KRedirect && cfg.NoRedirectSpy {
 			if obs.Status != 301 || obs.Kind != -1 {
 				res.fail("C13/kind", "%s: %s %s answered with status %d by %s, expected the redirect handler (301)", what, p.Method, p.Path, obs.Status, obs.Kind)
